@@ -60,6 +60,12 @@ func (ssu *realStatefulSetStatusUpdater) UpdateStatefulSetStatus(
 			return nil
 		}
 		if updated, err := ssu.setLister.StatefulSets(set.Namespace).Get(set.Name); err == nil {
+			if updated.UID != set.UID {
+				// the set was deleted and re-created under the same name: this
+				// status was computed for the old object and must not be written
+				// onto the new one
+				return fmt.Errorf("StatefulSet %s/%s was re-created: got uid %v, status was computed for %v: %v", set.Namespace, set.Name, updated.UID, set.UID, updateErr)
+			}
 			// make a copy so we don't mutate the shared cache
 			set = updated.DeepCopy()
 		} else {
